@@ -37,6 +37,62 @@ func init() {
 			New: "		}\n		l.cache.waitN.Add(-int64(l.waitN))\n"})
 }
 
+func init() {
+	Extend("C24", runC24Extra,
+		Mutant{Name: "seed-C24b-invalidation-time-overwritten", File: "internal/api/pcache.go", Rule: "C24-R4",
+			Old: "		if last, ok := c.seconds[i][rounded]; !ok || (ok && invalidatedAtNano > last) {\n			c.seconds[i][rounded] = invalidatedAtNano\n		}\n",
+			New: "		c.seconds[i][rounded] = invalidatedAtNano\n"},
+		Mutant{Name: "invalidation-time-keeps-minimum", File: "internal/api/pcache.go", Rule: "C24-R4",
+			Old: "!ok || (ok && invalidatedAtNano > last) {", New: "!ok || (ok && invalidatedAtNano < last) {"})
+}
+
+// C24-R4: the invalidation map keeps the maximum invalidation time per bucket.
+func runC24Extra(c *core.Check) {
+	c.Decides += " R4 every write of an invalidation time into the hierarchical seconds map either creates the entry or replaces a smaller value (the map holds, per second/minute/hour bucket, the latest invalidation of the seconds below it; the wall clock may step back between invalidations)."
+	c.Rule("C24-R4", "K1 monotone update", 1, "every map update of invalidatedSecondsCache.seconds[i][k] <- v is guarded by `!present(k) || old(k) < v` on the same map, key and value")
+	n := 0
+	for _, fn := range c.Prog.FuncsIn("internal/api") {
+		for _, b := range fn.Blocks {
+			for _, in := range b.Instrs {
+				mu, ok := in.(*ssa.MapUpdate)
+				if !ok || !strings.Contains(core.Expr(mu.Map), "api.invalidatedSecondsCache}.seconds[") {
+					continue
+				}
+				n++
+				site := fmt.Sprintf("%s/mapupdate:seconds#%d", core.FuncName(fn), n)
+				mapE, keyE := core.Expr(mu.Map), core.Expr(mu.Key)
+				isLookup := func(v ssa.Value, idx int) bool {
+					ex, ok := v.(*ssa.Extract)
+					if !ok || ex.Index != idx {
+						return false
+					}
+					lu, ok := ex.Tuple.(*ssa.Lookup)
+					return ok && core.Expr(lu.X) == mapE && core.Expr(lu.Index) == keyE
+				}
+				good := false
+				for _, g := range core.Facts(b) {
+					all := len(g.Alts) > 0
+					for _, l := range g.Alts {
+						absent := !l.Pol && isLookup(l.Cond, 1)
+						larger := l.Op == token.LSS && l.Pol && isLookup(l.X, 0) && l.Y == mu.Value
+						if !absent && !larger {
+							all = false
+						}
+					}
+					if all {
+						good = true
+					}
+				}
+				c.Require(good, "C24-R4", site, mu.Pos(), "invalidation time only grows",
+					"an invalidation time is stored without `entry absent || stored < new`: a later invalidation carrying a smaller clock value lowers the minute/hour bucket, a cached range covering it forgets the newer invalidation and stale rows are served; facts: "+core.FactsString(b))
+			}
+		}
+	}
+	if n == 0 {
+		c.Undecided("C24-R4", "internal/api/invalidatedSecondsCache.seconds", 0, "no update of the invalidation map found")
+	}
+}
+
 // derivesAllPaths reports whether v, on every path (every phi edge), is computed by
 // additions/conversions from a value satisfying pred. undecided lists value forms the
 // small idiom table does not cover.
